@@ -76,9 +76,15 @@ static inline void vstream__seekg(struct vstream *s, size_t off, int whence) { (
 #else
 #define LOADARRAY(T, N) static inline T *loadValue__##N##__2(struct vstream *in, const size_t len) { T *r = (T *)cxx_new_array(sizeof(T), len); vstream__read_n(in, (char *)r, len * sizeof(T)); return r; }
 #endif
+#ifdef VSTREAM_HAVOC_ARRAY_LOAD
+/* header-only obligations: array payloads are neither written nor read (save and load skip them consistently) */
+#define SAVEARRAY(T, N) static inline void saveValue__##N##__3(struct vstream *out, const T *val, const size_t len) { (void)out; (void)val; (void)len; }
+#else
+#define SAVEARRAY(T, N) static inline void saveValue__##N##__3(struct vstream *out, const T *val, const size_t len) { vstream__write_n(out, (const char *)val, len * sizeof(T)); }
+#endif
 #define DEFINE_STREAM_OPS(T, N) \
   static inline void saveValue__##N##__2(struct vstream *out, const T val) { T v = val; vstream__write(out, (const char *)&v, sizeof(T)); } \
-  static inline void saveValue__##N##__3(struct vstream *out, const T *val, const size_t len) { vstream__write_n(out, (const char *)val, len * sizeof(T)); } \
+  SAVEARRAY(T, N) \
   static inline T loadValue__##N##__1(struct vstream *in) { T r; vstream__read(in, (char *)&r, sizeof(T)); return r; } \
   LOADARRAY(T, N)
 DEFINE_STREAM_OPS(uint32_t, uint32_t)
